@@ -402,6 +402,13 @@ def run(rep, tier):
         if cfg == 'K1':
             c14.clause_e(facts, rep, ('::avx2::',))
             c14.clause_c(facts, rep)       # comparator shape: min(n1, n2) bytes, then the length tie-break
+    # equality looks members up with FindMember: the lookup (linear and through the map) finds exactly the members that are
+    # there after any mutation history - the bounded exploration of the container API (shared with C12)
+    from . import c12 as _c12
+    try:
+        _c12.clause_model(get_facts('K1'), rep, tier, kinds=('free',))
+    except AnalysisBroken as ex:
+        rep.broken.append(str(ex))
     rep.trust('clang 14 front end')
     rep.assumptions += [
         'decides who may write the numeric payload, zero-initialisation and kind of number nodes, kind selection of sibling constructors, and the structure of operator== (basic type first, kind equality + whole-node comparison for numbers, sizes before children, string views, != as negation)',
